@@ -327,6 +327,38 @@ def r6(ctx, rep):
     C01.take_distinct_on_shield(ctx.syn, table, rep)
 
 
+def r7(ctx, rep):
+    rep.rule("C03.R7", "a leading minus on ANY sort key means descending; sort columns inside transforms are folded like every other column id", floor=2)
+    syn = ctx.syn
+    f = syn.fn("resolve_special_func", crate="prqlc")
+    found = 0
+    for m in matches_of(f["body"]):
+        for arm in m["arms"]:
+            if "SortDirection::Desc" not in show(arm["body"], maxdepth=8):
+                continue
+            found += 1
+            g = arm.get("guard")
+            conj = []
+
+            def flat(c):
+                while c is not None and c.get("k") == "paren":
+                    c = c["e"]
+                if c is not None and c.get("k") == "bin" and c["op"] == "&&":
+                    flat(c["lhs"])
+                    flat(c["rhs"])
+                elif c is not None:
+                    conj.append(show(c, maxdepth=6))
+            flat(g)
+            bound = [x[1]["n"] if isinstance(x[1], dict) and x[1].get("k") == "p_ident" else x[0] for x in (arm["pat"].get("f") or [])] if arm["pat"].get("k") == "p_struct" else []
+            op_name = bound[0] if bound else "name"
+            rep.check(conj == [f"({op_name} == 'std.neg')"] or conj == [f"{op_name} == 'std.neg'"], "sort:minus-means-desc",
+                      f"`sort {{-e}}` is descending for every expression e: the arm that yields SortDirection::Desc must be guarded by the operator name alone; found conditions {conj} "
+                      "(an extra condition on the operand makes `sort {-(a+b)}` an ascending sort by the negated value)", file=f["file"], line=arm["l"], fn=f["path"])
+    rep.check(found == 1, "sort:desc-arm", f"expected one arm producing SortDirection::Desc in resolve_special_func, found {found}", file=f["file"], line=f["l"], fn=f["path"])
+    import C01
+    rep.borrowed(C01.r4, ctx, "C03.R7b", "sort keys embedded in Take / Sort / windows are redirected at a split like any other column id", only=r"(Take|Sort|ColumnSort|Window)")
+
+
 def run(ctx, rep):
-    for r in (r1_r2, r3, r4, r5, r6):
+    for r in (r1_r2, r3, r4, r5, r6, r7):
         rep.guard(r, ctx)
